@@ -316,6 +316,15 @@ func HeadlessStream(seed int64) *Stream {
 	ps = append(ps, Packetize(PESUnit(0x100, 0xe0, pesPayload(62, 100, seed), 2, false), nil, &cc, false)...)
 	cc += 3
 	ps = append(ps, &ref.Pkt{PID: 0x100, HasPL: true, CC: cc & 0xf, Payload: look})
+	// PAT PID: a start-less packet that reads as pointer_field 0 + a complete PAT section (it is a unit of its
+	// own for the custom parser: complete as far as the completeness test can tell), then a real PAT
+	{
+		psec := SecPAT(modelPAT(9, 0x1fee), ref.SecHdr{CNI: true, Version: 3})
+		ppl := append(append([]byte{0x00}, psec...), bytes.Repeat([]byte{0xff}, 183-len(psec))...)
+		ps = append(ps, &ref.Pkt{PID: 0, HasPL: true, CC: 4, Payload: ppl})
+		c0 := uint8(5)
+		ps = append(ps, Packetize(PSIUnit(0, 0, [][]byte{SecPAT(modelPAT(1, 0x1000), ref.SecHdr{CNI: true})}, nil), nil, &c0, true)...)
+	}
 	// SI PID: a headless packet that looks like pointer_field 0 + a complete SDT section
 	sec := SecSDT(modelSDT(1), ref.SecHdr{CNI: true})
 	pl := append(append([]byte{0x00}, sec...), bytes.Repeat([]byte{0xff}, 183-len(sec))...)
@@ -432,6 +441,24 @@ func c19Parsers(c *mc.Ctx, st *Stream, refPk []*ref.Pkt) {
 		}
 		if bad != "" {
 			rep("parser-argument", bad)
+		}
+		if st.Name == "headless-lookalikes" {
+			// every start-less look-alike packet is handed to the parser (in some unit): nothing else will ever
+			// look at it
+			seen := map[int]bool{}
+			for _, gs := range groups {
+				for _, g := range gs {
+					for _, i := range g {
+						seen[i] = true
+					}
+				}
+			}
+			for i, p := range refPk {
+				if !p.PUSI && p.HasPL && !p.TEI && len(p.Payload) > 3 && p.Payload[0] == 0 && p.Payload[1] == 0 && !seen[i] {
+					rep("parser-never-handed-startless-packets", fmt.Sprintf("packet %d (PID %#x, no payload_unit_start) was never handed to the PacketsParser", i, p.PID))
+					break
+				}
+			}
 		}
 		for k := range kept {
 			if mc.Canon(kept[k]) != keptSnap[k] {
